@@ -68,4 +68,24 @@ def RtpPacket(rng, inst):
                    rng.choice([0, 1, (1 << 32) - 1, rng.randrange(1 << 32)]))
 
 
-BUILDERS = {"JitterBuffer": JitterBuffer, "RtpPacket": RtpPacket}
+def NackGenerator(rng, inst):
+    from aiortc.rtcrtpreceiver import NackGenerator as NG
+    g = NG()
+    seq = rng.choice([0, 1, 65530, 65535, 65400, 32760, rng.randrange(65536)])
+    for _ in range(rng.choice([0, 1, 2, 3, 5, 8, 12, 20])):
+        r = rng.random()
+        if r < 0.4:
+            seq += 1
+        elif r < 0.7:
+            seq += rng.choice([2, 3, 5, 17])
+        elif r < 0.8:
+            seq -= rng.choice([1, 2, 3, 130])
+        elif r < 0.9:
+            seq += rng.choice([127, 128, 129, 200])
+        else:
+            seq += rng.choice([1000, 32767, 40000])
+        g.add(_packet(rng, seq, 0))
+    return g
+
+
+BUILDERS = {"NackGenerator": NackGenerator, "JitterBuffer": JitterBuffer, "RtpPacket": RtpPacket}
